@@ -8,10 +8,12 @@ import (
 	"io"
 	"log/slog"
 	"runtime"
+	"runtime/debug"
 	"sort"
 	"strings"
 	"sync"
 	"sync/atomic"
+	"syscall"
 	"testing"
 
 	"github.com/slackhq/nebula/firewall"
@@ -396,15 +398,13 @@ func c23shapes() []c23shape {
 	return S
 }
 
-func c23initialFlows(full int) map[int]*c23flow {
-	m := map[int]*c23flow{}
+func c23initialFlows(m *[c23gX3 + 1]c23flow, full int) {
 	for g := c23gT1; g <= c23gX3; g++ {
-		m[g] = &c23flow{full: full, seq: 1000, id: 0x100}
+		m[g] = c23flow{full: full, seq: 1000, id: 0x100}
 	}
 	m[c23gT1].seq = 0xffffffff - uint32(full) - uint32(full)/2 // wraps inside the second full segment
 	m[c23gT3].id = 0xfffe                                       // sequential IDs wrap
 	m[c23gU2].id = 0xffff
-	return m
 }
 
 // ------------------------------------------------------------------------------------------------ normalisation
@@ -496,7 +496,7 @@ type c23out struct {
 type c23writer struct {
 	tso, uso bool
 	out      []c23out
-	events   []string // "W" plain write, "G<n>" offloaded write of n segments
+	events   []int // 0 = plain write, n = offloaded write re-segmented into n packets
 	rejects  []string
 	gso      [4]int // multi-segment superpackets: tcp4, tcp6, udp4, udp6
 	maxSegs  int
@@ -508,6 +508,21 @@ func (w *c23writer) reset() {
 	w.maxSegs = 0
 }
 
+func (w *c23writer) pattern() string {
+	var sb strings.Builder
+	for i, ev := range w.events {
+		if i > 0 {
+			sb.WriteByte(',')
+		}
+		if ev == 0 {
+			sb.WriteByte('W')
+		} else {
+			fmt.Fprintf(&sb, "G%d", ev)
+		}
+	}
+	return sb.String()
+}
+
 func (w *c23writer) Capabilities() tio.Capabilities { return tio.Capabilities{TSO: w.tso, USO: w.uso} }
 
 func (w *c23writer) Write(p []byte) (int, error) {
@@ -515,7 +530,7 @@ func (w *c23writer) Write(p []byte) (int, error) {
 		return 0, nil // tio.Offload.Write: nothing is written
 	}
 	w.out = append(w.out, c23out{pkt: append([]byte(nil), p...)})
-	w.events = append(w.events, "W")
+	w.events = append(w.events, 0)
 	return len(p), nil
 }
 
@@ -528,7 +543,7 @@ func (w *c23writer) WriteGSO(hdr, thdr []byte, pays [][]byte, proto tio.GSOProto
 	for _, s := range segs {
 		w.out = append(w.out, c23out{pkt: s, fromGSO: true})
 	}
-	w.events = append(w.events, fmt.Sprintf("G%d", len(segs)))
+	w.events = append(w.events, len(segs))
 	if len(segs) > 1 {
 		i := 0
 		if proto == tio.GSOProtoUDP {
@@ -783,7 +798,8 @@ func (e *c23env) newWorker(tso, uso bool) *c23worker {
 
 // materialise builds the packets of a batch in transmission order.
 func (e *c23env) materialise(slots []c23slot, full int) []c23input {
-	flows := c23initialFlows(full)
+	var flows [c23gX3 + 1]c23flow
+	c23initialFlows(&flows, full)
 	ins := make([]c23input, len(slots))
 	ctr := [2]uint64{1000, 0} // the old session is deep into its counter space, the new one starts at 0
 	for i, s := range slots {
@@ -793,7 +809,7 @@ func (e *c23env) materialise(slots []c23slot, full int) []c23input {
 			g -= c23gFrag
 		}
 		slot := i
-		pk := sh.mk(flows[g], func(n int) []byte {
+		pk := sh.mk(&flows[g], func(n int) []byte {
 			b := make([]byte, n)
 			for j := range b {
 				b[j] = byte(slot*37 + j*3 + 1)
@@ -892,7 +908,7 @@ func (e *c23env) run(m *MultiCoalescer, w *c23writer, ins []c23input, arrival []
 		}
 	}
 	if len(missing) > 0 || len(extra) > 0 {
-		d := map[string]any{"events": strings.Join(w.events, ",")}
+		d := map[string]any{"events": w.pattern()}
 		var ms, xs []string
 		for _, i := range missing {
 			ms = append(ms, fmt.Sprintf("%s: %x", e.shapes[ins[i].shape].name, ins[i].pkt))
@@ -915,7 +931,7 @@ func (e *c23env) run(m *MultiCoalescer, w *c23writer, ins []c23input, arrival []
 	for _, o := range w.out {
 		if o.fromGSO {
 			if why := c23verifyGSOPacket(o.pkt); why != "" {
-				return "re-segmented packet invalid: " + why, map[string]any{"packet": fmt.Sprintf("%x", o.pkt), "events": strings.Join(w.events, ",")}
+				return "re-segmented packet invalid: " + why, map[string]any{"packet": fmt.Sprintf("%x", o.pkt), "events": w.pattern()}
 			}
 		}
 	}
@@ -1007,7 +1023,7 @@ func (e *c23env) run(m *MultiCoalescer, w *c23writer, ins []c23input, arrival []
 		if len(span) == 0 || !rec(0) {
 			a, b := &ins[oi], &ins[oj]
 			return fmt.Sprintf("order: %s overtaken by later %s of the same flow and session", e.shapes[a.shape].name, e.shapes[b.shape].name),
-				map[string]any{"earlier": oi, "later": oj, "events": strings.Join(w.events, ","), "assignment_search_exhausted": budget > 0}
+				map[string]any{"earlier": oi, "later": oj, "events": w.pattern(), "assignment_search_exhausted": budget > 0}
 		}
 	}
 	// --- statistics
@@ -1035,7 +1051,7 @@ func (e *c23env) run(m *MultiCoalescer, w *c23writer, ins []c23input, arrival []
 		st.maxSegs = w.maxSegs
 	}
 	for _, ev := range w.events {
-		if ev == "W" {
+		if ev == 0 {
 			st.plainWrites++
 		} else {
 			st.gsoWrites++
@@ -1050,7 +1066,14 @@ func (e *c23env) run(m *MultiCoalescer, w *c23writer, ins []c23input, arrival []
 		}
 	}
 	if len(ins) <= 4 {
-		st.outcomes[strings.Join(w.events, ",")] = struct{}{}
+		var kb [8]byte
+		key := kb[:0]
+		for _, ev := range w.events {
+			key = append(key, byte(ev))
+		}
+		if _, seen := st.outcomes[string(key)]; !seen {
+			st.outcomes[string(key)] = struct{}{}
+		}
 	}
 	return "", nil
 }
@@ -1120,7 +1143,7 @@ func (wk *c23worker) batch(slots []c23slot, arrival []int, full int) {
 	}
 	wk.prev = append(wk.prev[:0], slots...)
 	if n := wk.st.batches; n > 0 && n&(n-1) == 0 && n >= 256 && sig == "" {
-		e.c.Sample(map[string]any{"batch": descOf(slots), "arrival": append([]int(nil), arrival...), "writes": strings.Join(wk.w.events, ",")})
+		e.c.Sample(map[string]any{"batch": descOf(slots), "arrival": append([]int(nil), arrival...), "writes": wk.w.pattern()})
 	}
 }
 
@@ -1147,6 +1170,7 @@ func c23perms(k int) [][]int {
 func TestVerifC23(t *testing.T) {
 	c := mc.Begin(t, "C23", "exploration")
 	defer c.End()
+	defer debug.SetGCPercent(debug.SetGCPercent(100)) // allocation-heavy enumeration, tiny live heap
 	var nviol atomic.Int64
 	env := &c23env{c: c, shapes: c23shapes(), nviol: &nviol}
 	S := len(env.shapes)
@@ -1410,6 +1434,7 @@ func TestVerifC23(t *testing.T) {
 	}
 
 	// ---- evidence
+	c.Set("cpu_seconds", float64(int(c23cpu()*10))/10)
 	c.Set("evaluations", total.batches)
 	c.Set("distinct_nontrivial", total.withGSO)
 	c.Set("rule", "one evaluation = one (batch in transmission order, session assignment, arrival permutation, writer capabilities) run through Commit/Flush and compared; non-trivial = the coalescer really emitted at least one offloaded superpacket of >= 2 segments in that batch (measured on the recording writer)")
@@ -1451,4 +1476,13 @@ func TestVerifC23(t *testing.T) {
 	c.Assume("'IPv4 IDs that carry no meaning' = atomic datagrams (DF=1, MF=0, offset 0; RFC 6864); lengths and checksums are compared modulo rewriting, but every re-segmented packet must carry correct ones")
 	c.Assume("order is checked per (5-tuple, session) for unfragmented TCP/UDP, per (addresses, protocol) for other protocols, and separately for fragments; an earlier pure ACK (no payload, ACK set, no SYN/FIN/RST) may be delivered after later packets of its flow; order across sessions and across flows is not demanded")
 	c.Assume("ParsedPacket fields (Protocol, IPHdrLen, FragAny) are produced by a transcription of newPacket/parseV4 and the real iputil.IPv6FindUpperProtocol; batches beyond the enumerated sizes (k<=3 full alphabet; deeper boxes restricted as listed; structured long runs up to a few hundred packets) are not covered")
+}
+
+// c23cpu returns the CPU seconds (user+system) this process has consumed: wall time is meaningless on a shared machine.
+func c23cpu() float64 {
+	var ru syscall.Rusage
+	if syscall.Getrusage(syscall.RUSAGE_SELF, &ru) != nil {
+		return 0
+	}
+	return float64(ru.Utime.Sec+ru.Stime.Sec) + float64(ru.Utime.Usec+ru.Stime.Usec)/1e6
 }
